@@ -9,6 +9,7 @@ import math
 
 import numpy as np
 
+from .. import bootstrap
 from ..scripted_process import ScriptedProcess
 
 ID = "C07"
@@ -20,9 +21,11 @@ RULE = ("case = (N paths with unique scripted terminal values, product in {Forwa
         "distinct = distinct seed")
 ASSUMPTIONS = ["controls whose sample covariance matrix has an entry below 1e-8 in absolute value are not generated (the code's own "
                "degenerate-control guard, 1e-12, is far below)",
-               "single process (nb_of_processes = 1); the scripted process stands for any Process"]
+               "the scripted process stands for any Process; runs with 2..4 worker processes draw the terminal values in the workers and log them "
+               "to an O_APPEND file, the multiset of logged values is the reference (which worker simulates which path is not prescribed)"]
 REQUIRED_COUNTERS = ["price_checks", "stddev_checks", "each_path_once_checks", "control_variate_checks", "cv_mean_invariance",
-                     "cv_variance_checks", "vector_payoff_cases", "spot_statistics_cases", "control_variates_object_reused"]
+                     "cv_variance_checks", "vector_payoff_cases", "spot_statistics_cases", "control_variates_object_reused",
+                     "concentrated_sample_cases", "worker_process_runs", "worker_runs_with_two_or_more_simulating_processes"]
 MIN_NONTRIVIAL = {"quick": 100, "thorough": 1500}
 THOROUGH_ROUNDS = 20      # the thorough tier runs the generators this many times (different seeds)
 
@@ -36,7 +39,127 @@ def gen_cases(tier, seed):
                       "product": ["forward", "call", "put", "call-vector", "onthefly"][i % 5], "ncv": int(i % 4),
                       "cv_prices": ["scalar", "vector"][(i // 4) % 2], "spot_stats": bool((i // 8) % 2),
                       "cv_notional": float([1.0, 1.0, 1e-2, 1.0, 250.0, 1e-4, 1.0, 2e-5, 1.0][(i // 4) % 9])})
+        if i % 12 == 0:
+            # samples concentrated around a large value (relative spread 1e-6 .. 1e-8): the error estimate must not lose them to cancellation
+            cases[-1]["concentration"] = float(rng.choice([1e-6, 1e-8]))
+    # the paths simulated by a pool of worker processes: path counts that are and are not multiples of the number of workers
+    for i in range(8 if tier == "quick" else 24):
+        cases.append({"kind": "workers", "seed": int(rng.integers(2**31)), "N": int(rng.choice([3, 5, 7, 16, 17, 33, 64, 101])), "workers": int(rng.choice([2, 3, 4])),
+                      "product": ["forward", "call", "put"][i % 3]})
     return cases
+
+
+class LoggedWorkerProcess:
+    """scripted process for runs with worker processes: the terminal value is drawn in the process that simulates the path and appended to a
+    file (one O_APPEND write per path), the record -- independent of the engine -- of what was simulated"""
+
+    def __init__(self, log_path, rate):
+        from rpylib.process.process import ProcessRepresentation
+        from ..scripted_process import ScriptedModel
+
+        self.model = ScriptedModel(1, rate)
+        self.process_representation = ProcessRepresentation.IDENDITY
+        self.log_path = log_path
+        self.maturity = None
+
+    def dimension(self):
+        return 1
+
+    def initialisation(self, product, max_step_epsilon=None):
+        self.maturity = product.maturity
+
+    def pre_computation(self, mc_paths, product):
+        pass
+
+    def deterministic_path(self, times):
+        return 0.0 * np.asarray(times, dtype=float)
+
+    def df(self, t):
+        return self.model.df(t)
+
+    def one_simulation_cost(self, product):
+        return 1.0
+
+    def reset_one_simulation_cost(self):
+        pass
+
+    def simulate_one_path(self):
+        import os
+        from rpylib.montecarlo.path import StochasticJumpPath
+
+        v = 60.0 + 80.0 * int.from_bytes(os.urandom(6), "big") / 2.0**48
+        fd = os.open(self.log_path, os.O_WRONLY | os.O_APPEND | os.O_CREAT)
+        try:
+            os.write(fd, (float(v).hex() + " " + str(os.getpid()) + "\n").encode())
+        finally:
+            os.close(fd)
+        return StochasticJumpPath(np.array([0.0, self.maturity]), np.array([0.0, v]), np.array([0.0, 0.0]))
+
+
+def _run_workers(case, R):
+    import os
+    import tempfile
+    from rpylib.montecarlo.configuration import ConfigurationStandard
+    from rpylib.montecarlo.standard.engine import Engine
+    from rpylib.product.product import Product
+    from rpylib.product.underlying import Spot
+
+    rng = np.random.default_rng(case["seed"])
+    N, workers = case["N"], case["workers"]
+    rate, T = float(rng.uniform(0, 0.08)), float(rng.uniform(0.2, 3.0))
+    notional = float(rng.choice([1.0, 2.5, -3.0]))
+    k = float(rng.uniform(85, 115))
+    pay, fun = _payoff(case["product"], k, None)
+    product = Product(payoff_underlying=Spot(), payoff=pay, maturity=T, notional=notional)
+    df = math.exp(-rate * T)
+    wit = {"case": case, "strike": k, "notional": notional, "rate": rate, "T": T}
+    fd, log_path = tempfile.mkstemp(prefix="c07-paths-", dir=os.path.join(bootstrap.VERIF, ".scratch") if os.path.isdir(os.path.join(bootstrap.VERIF, ".scratch")) else None)
+    os.close(fd)
+    try:
+        proc = LoggedWorkerProcess(log_path, rate)
+        conf = ConfigurationStandard(mc_paths=N, seed=None, activate_spot_statistics=True, nb_of_processes=workers)
+        try:
+            st = Engine(conf, proc).price(product)
+        except Exception as exc:  # noqa: BLE001
+            R.violation("engine-raises-with-worker-processes", f"standard Engine.price with {workers} processes raises {type(exc).__name__}: {exc}", wit)
+            return
+        with open(log_path) as fh:
+            lines = [ln.split() for ln in fh.read().splitlines() if ln.strip()]
+    finally:
+        try:
+            os.unlink(log_path)
+        except OSError:
+            pass
+    R.hit("worker_process_runs")
+    sim = np.array([float.fromhex(a) for a, _ in lines], dtype=float)
+    pids = {b for _, b in lines}
+    R.hit("worker_paths_logged", len(sim))
+    if len(pids) >= 2:
+        R.hit("worker_runs_with_two_or_more_simulating_processes")
+    divis = "multiple-of-the-workers" if N % workers == 0 else "not-a-multiple-of-the-workers"
+    if len(sim) != N:
+        R.violation(f"worker-processes-simulate-another-number-of-paths-{divis}", f"{N} paths configured, {workers} processes: {len(sim)} paths were simulated", wit)
+    stored = np.asarray(st._payoff_statistics.stats, dtype=float).reshape(-1)
+    spots = np.asarray(st._spot_underlying_statistics.stats, dtype=float).reshape(-1)
+    Y = df * notional * np.asarray(fun(sim), dtype=float)
+    if len(stored) != N or len(sim) != len(spots) or not np.allclose(np.sort(spots), np.sort(sim), rtol=1e-13, atol=0):
+        R.violation(f"worker-paths-not-each-used-once-{divis}", f"{len(sim)} simulated terminal values, {len(spots)} rows of spot statistics for {N} configured paths: "
+                    "the stored spots are not the simulated ones, each once", wit)
+        return
+    if not np.allclose(np.sort(stored), np.sort(Y), rtol=1e-12, atol=1e-12):
+        R.violation("worker-stored-payoff-not-discounted-notional-payoff", "the stored payoffs are not df*notional*payoff of the simulated paths (as multisets)", wit)
+        return
+    R.hit("price_checks")
+    raw = float(np.atleast_1d(np.asarray(st.price(no_control_variates=True), dtype=float))[0])
+    if not (abs(raw - Y.mean()) <= 1e-12 * (abs(Y.mean()) + float(np.max(np.abs(Y))))):
+        R.violation(f"raw-price-not-mean-worker-processes-{divis}", f"price = {raw!r}, df*mean(notional*payoff) over the {len(sim)} simulated paths = {Y.mean()!r}", wit)
+    R.hit("stddev_checks")
+    err = float(np.atleast_1d(np.asarray(st.mc_stddev(no_control_variates=True), dtype=float))[0])
+    want = float(Y.std(ddof=1) / math.sqrt(N))
+    if not (abs(err - want) <= 1e-10 * want + 1e-13 * float(np.max(np.abs(Y)))):
+        R.violation(f"mc-stddev-worker-processes-{divis}", f"mc_stddev = {err!r}, std(ddof=1)/sqrt(N) over the simulated paths = {want!r}", wit)
+    if np.std(Y) > 0:
+        R.nontrivial_case("workers", case["seed"])
 
 
 def _payoff(kind, k, ks):
@@ -64,6 +187,9 @@ def run_case(case, R):
     from rpylib.product import payoff as P
 
     R.evaluation()
+    if case.get("kind") == "workers":
+        _run_workers(case, R)
+        return
     rng = np.random.default_rng(case["seed"])
     N = case["N"]
     rate, T = float(rng.uniform(0, 0.08)), float(rng.uniform(0.2, 3.0))
@@ -71,6 +197,10 @@ def run_case(case, R):
     # unique terminal values: i-th path -> base + i * step + tiny id
     s = np.sort(rng.lognormal(0.0, 0.4, size=N)) * 100.0
     s = s + np.arange(N) * 1e-6
+    conc = float(case.get("concentration", 0.0))
+    if conc:
+        s = float(rng.choice([1e2, 1e4])) * (1.0 + conc * (np.sort(rng.normal(size=N)) + 1e-3 * np.arange(N)))
+        R.hit("concentrated_sample_cases")
     order = rng.permutation(N)
     s = s[order]
     k = float(np.median(s) * rng.uniform(0.9, 1.1))
@@ -144,9 +274,12 @@ def run_case(case, R):
         R.violation("raw-price-not-mean", f"price(no_control_variates=True) = {raw.tolist()}, df*mean(notional*payoff) = {want.tolist()}", wit)
     R.hit("stddev_checks")
     err = np.atleast_1d(np.asarray(st.mc_stddev(no_control_variates=True), dtype=float))
-    want_err = Y2.std(axis=0, ddof=1) / math.sqrt(N)
-    if not np.allclose(err, want_err, rtol=1e-10, atol=1e-14 + 4e-15 * N * ymax):
-        dimk = "vector-payoff" if dim > 1 else "scalar-payoff"
+    # (the error of the rows the engine stored -- compared with the scripted payoffs to 1e-12 above: on concentrated samples the rounding of
+    #  the payoff itself is not small against their spread)
+    want_err = stored.std(axis=0, ddof=1) / math.sqrt(N)
+    # (any two-pass or updating algorithm is good to eps / relative spread; the one-pass moment formula only to eps / relative spread^2)
+    if not np.allclose(err, want_err, rtol=max(1e-10, 2.3e-14 / conc) if conc else 1e-10, atol=1e-14 + 4e-15 * N * ymax * (0.0 if conc else 1.0)):
+        dimk = ("vector-payoff" if dim > 1 else "scalar-payoff") + ("-concentrated-samples" if conc else "")
         R.violation(f"mc-stddev-{dimk}", f"mc_stddev = {err.tolist()} for N = {N}, payoff dimension {dim}; std(ddof=1)/sqrt(N) = {want_err.tolist()}", wit)
     # ---- control variates -----------------------------------------------------------------------------------------------------------
     if cvs:
